@@ -41,7 +41,7 @@ ENCS = ["pm1", "01", "bool"]
 
 
 def plan(seed, tier):
-    n = 96 if tier == "quick" else 1200
+    n = 96 if tier == "quick" else 3000
     cases = []
     for i in range(n):
         cases.append({"class": "safety", "index": i, "learner": LEARNERS[i % 8], "enc": ENCS[(i // 8) % 3],
@@ -49,12 +49,12 @@ def plan(seed, tier):
                       "nfiles": [1, 2][(i // 5) % 2], "folds": int(2 + (i // 7) % 3), "override": bool(i % 12 == 11),
                       "cost": 3})
     # evaluation FDRs stricter than the library's internal defaults (large tables so that something is accepted)
-    k = 10 if tier == "quick" else 100
+    k = 10 if tier == "quick" else 200
     for i in range(k):
         cases.append({"class": "safety", "index": 10000 + i, "learner": ["spiky:proba", "overfit", "spiky:proba", "svc", "spiky"][i % 5],
                       "enc": ENCS[i % 3], "best_desc": bool(i % 4 != 3), "fmt": ["pin", "parquet"][i % 2], "nfiles": 1,
                       "folds": int(2 + i % 2), "override": False, "strict": True, "cost": 8})
-    m = 12 if tier == "quick" else 120
+    m = 12 if tier == "quick" else 200
     for i in range(m):
         cases.append({"class": "direction", "index": i, "fmt": ["pin", "parquet"][i % 2], "cost": 6})
     return cases
